@@ -29,6 +29,9 @@ def run(chk, replay=None):
         'host_500_echo': {'challenge': 'digest', 'echo_headers': True, 'hosts': [okh[0], {'status': 500, 'body': '', 'cut': -1}]},
         'cluster_404_echo': {'challenge': 'digest', 'echo_headers': True, 'cluster_st': 404, 'hosts': okh},
         'reset': {'challenge': 'digest', 'hosts': [{'status': 200, 'body': '', 'cut': -1, 'reset': True}, okh[1]]},
+        'host_basic_after_digest': {'challenge': 'digest', 'host_challenge': 'basic', 'echo_headers': True, 'hosts': okh},
+        'host_sha512_after_digest': {'challenge': 'digest', 'host_challenge': 'digest-sha512', 'hosts': okh},
+        'host_bearer_after_digest': {'challenge': 'digest', 'host_challenge': 'bearer', 'hosts': okh},
         'cut': {'challenge': 'digest', 'hosts': [okh[0], {'status': 200, 'body': base64.b64encode(good).decode(), 'cut': 9}]},
     }
     secret_forms = forms(atlaslib.PRIV)
